@@ -6046,6 +6046,9 @@ impl BytecodeVM {
             // Pop the try handler (we're exiting this try block)
             self.try_stack.truncate(handler_idx);
 
+            // Leave the block scopes entered inside the try statement
+            self.unwind_scopes_to(interp, handler.scope_depth);
+
             // Jump to the finally block
             self.ip = handler.finally_ip;
 
@@ -6082,12 +6085,15 @@ impl BytecodeVM {
         // Check if there's a try handler with a finally block between us and the target
         let target_try_depth = try_depth as usize;
 
-        // Find the first try handler ABOVE target depth that has a finally block
+        // Find the innermost try handler ABOVE target depth that has a finally block: the
+        // finally blocks on the way out run from the inside outwards (each FinallyEnd
+        // continues the pending jump, which then finds the next one)
         if let Some(handler_idx) = self
             .try_stack
             .iter()
             .enumerate()
             .skip(target_try_depth)
+            .rev()
             .find(|(_, h)| h.finally_ip != 0)
             .map(|(i, _)| i)
         {
@@ -6148,12 +6154,15 @@ impl BytecodeVM {
         // Check if there's a try handler with a finally block between us and the target
         let target_try_depth = try_depth as usize;
 
-        // Find the first try handler ABOVE target depth that has a finally block
+        // Find the innermost try handler ABOVE target depth that has a finally block: the
+        // finally blocks on the way out run from the inside outwards (each FinallyEnd
+        // continues the pending jump, which then finds the next one)
         if let Some(handler_idx) = self
             .try_stack
             .iter()
             .enumerate()
             .skip(target_try_depth)
+            .rev()
             .find(|(_, h)| h.finally_ip != 0)
             .map(|(i, _)| i)
         {
